@@ -564,10 +564,10 @@ class IArr:
         """Advanced indexing with one concrete list of integers (copy semantics)."""
         t = list(idx if isinstance(idx, tuple) else (idx,))
         k = [i for i, x in enumerate(t) if isinstance(x, list)]
-        if len(k) != 1 or not all(isinstance(v, int) for v in t[k[0]]):
+        if len(k) != 1 or not all(isinstance(v, (int, SInt)) for v in t[k[0]]):
             raise OutOfReach("advanced indexing form")
         k = k[0]
-        rows = t[k]
+        rows = t[k]          # concrete list of (possibly symbolic) integer indices
         parts = []
         for r_ in rows:
             t2 = list(t)
@@ -592,7 +592,7 @@ class IArr:
     def _scatter(self, idx, val):
         t = list(idx if isinstance(idx, tuple) else (idx,))
         k = [i for i, x in enumerate(t) if isinstance(x, list)]
-        if len(k) != 1 or not all(isinstance(v, int) for v in t[k[0]]):
+        if len(k) != 1 or not all(isinstance(v, (int, SInt)) for v in t[k[0]]):
             raise OutOfReach("advanced indexing form")
         k = k[0]
         rows = t[k]
